@@ -161,7 +161,8 @@ fn judge(t: &Template, new: &[LFile], diff: &str, context: usize, input: &Value,
     };
     let expect = expectations(&t.files, new, &parsed);
     let features = diff_features(diff);
-    let class = |file: &str| features.get(file).cloned().unwrap_or_default();
+    let mispaired = crate::props::c01::files_with_cross_boundary_pairing(&t.files, new, &parsed);
+    let class = |file: &str| format!("{}{}", features.get(file).cloned().unwrap_or_default(), if mispaired.iter().any(|f| f == file) { ":paired-across-block-boundary" } else { "" });
     let files: Vec<(String, String)> = new.iter().map(|f| (f.name.to_string(), f.text())).collect();
     let describe = |extra: &str| format!("{} -U{context}: {extra}\n--- diff ---\n{diff}", t.name);
     // The full scan of the same tree is the reference for rule verdicts.
